@@ -14,7 +14,7 @@
 (*    column the linear longitude scale prescribes (+-1);                  *)
 (*  - view actions leave the data unchanged.                               *)
 (***************************************************************************)
-EXTENDS Integers, Sequences, FiniteSets, Json, IOUtils, TLC, Trig
+EXTENDS Integers, Sequences, FiniteSets, Json, IOUtils, TLC, Geo
 
 Rec == ndJsonDeserialize(IOEnv.TRACE)
 VARIABLES l, total, most, lastplanes, dirty
@@ -74,6 +74,13 @@ MapDiff(ev) ==
                         \cup (IF dlat < -marg /\ Lab(p.k).row < yc THEN {"map_south_below"} ELSE {})
   IN IF cw < 20 \/ ch < 5 THEN {} ELSE UNION {One(ev.planes[i]) : i \in 1..Len(ev.planes)}
 
+\* the data is the tracker's and the tracker's distances are measured from the *receiver*, wherever the view is centred
+DataDiff(ev) ==
+  LET rcv == [lat |-> ev.lat, lon |-> ev.long]
+      bad == {i \in 1..Len(ev.planes) : ev.planes[i].det = 1 /\ ev.planes[i].distmm < 1900000000
+                 /\ ~DistOK(ev.planes[i].distmm \div 1000, rcv, [lat |-> ev.planes[i].lat, lon |-> ev.planes[i].lon], 10)}
+  IN IF bad = {} THEN {} ELSE {"distance_not_from_receiver"}
+
 ScreenDiff(ev) ==
      (IF ev.title_count = Len(ev.planes) THEN {} ELSE {"title_count"})
   \cup (IF ev.tab = 2 /\ ev.box_count # Len(ev.planes) THEN {"table_title_count"} ELSE {})
@@ -82,6 +89,7 @@ ScreenDiff(ev) ==
         THEN (IF ev.stats_total = total THEN {} ELSE {"stats_total"}) \cup (IF ev.stats_most = most THEN {} ELSE {"stats_most"})
         ELSE {})
   \cup (IF ev.tab = 0 THEN MapDiff(ev) ELSE {})
+  \cup DataDiff(ev)
   \cup (IF ~dirty /\ lastplanes # <<>> /\ ev.planes # lastplanes[1] THEN {"view_changed_data"} ELSE {})
 
 Judge(ev) == LET d == IF ev.ev = "screen" THEN ScreenDiff(ev) ELSE {} IN
